@@ -394,6 +394,7 @@ def partner_for(path, node):
         out += [("output", []), ("output", [{"from": "$a", "to": "b"}])]
     if last in ("checkpoints", "filter") or "where" in node or "dependencies" in node:
         out += [("gate_type", "AND"), ("gate_type", "OR")]
+    out += [(k, None) for k in sorted(set(k for k, _ in out))]       # a forbidden / exclusive property given as null
     return [(k, v) for (k, v) in out if k not in node]
 
 
@@ -784,7 +785,7 @@ def exclusive_pair_cases(repo_root):
             if not isinstance(node, dict):
                 continue
             for (k, v) in partner_for(path, node):
-                if k in ("gate_type", "output"):
+                if k == "gate_type" or (k == "output" and v is not None):
                     continue
                 field = None
                 if isinstance(node.get("aggregate"), dict):
